@@ -223,6 +223,50 @@ def multi_use_layer():
     return out
 
 
+def shadow_layer():
+    """a nested scope whose USE brings in names that its host also has -- declared in the host module, or
+    imported by the host from a third module -- plainly, through ONLY, and through ONLY with a rename whose
+    local name is the host's name; all four classes (type, procedure, abstract interface, variable).
+    Fortran (19.4, 19.5.1.4): in the nested scope the name denotes the used module's entity."""
+    names = [("ta", "type"), ("pa", "proc"), ("ia", "abs"), ("va", "var")]
+    za = mod("za", "public", [(n, k, "public") for n, k in names])
+    zb = mod("zb", "public", [(n, k, "public") for n, k in names] + [("tb", "type", "public"), ("pb", "proc", "public"),
+                                                                      ("ib", "abs", "public"), ("vb", "var", "public")])
+    uses = {
+        "plain": [use("zb")],
+        "only": [use("zb", [(n, n) for n, _ in names])],
+        "only_rename": [use("zb", [("ta", "tb"), ("pa", "pb"), ("ia", "ib"), ("va", "vb")], prefix="non_intrinsic")],
+        "only_mixed": [use("zb", [("ta", "ta"), ("pa", "pb")]), use("zb", [("ia", "ib"), ("va", "va")])],
+    }
+    refs = [("type", "ta"), ("procptr", "ia"), ("call", "pa")]
+    body_refs = [("type", "ta"), ("procptr", "ia")]
+    out = []
+    for hname, host in (("host_declares", "own"), ("host_imports", "use"), ("host_imports_only", "only")):
+        for uname, us in uses.items():
+            for form in ("modproc", "internal", "host_chain", "ifbody_mod", "ifbody_proc"):
+                mm = mod("mm", "public")
+                if host == "own":
+                    mm["decls"] += mod("x", "public", [(n, k, "public") for n, k in names])["decls"]
+                elif host == "use":
+                    mm["uses"] = [use("za")]
+                else:
+                    mm["uses"] = [use("za", [(n, n) for n, _ in names])]
+                mm["decls"] += [dict(ref_var("vmt", "type", "ta"), perm="public"), dict(ref_var("vmi", "procptr", "ia"), perm="public")]
+                if form == "modproc":
+                    mm["decls"].append(nested_decl(nd("p", "routine", us, refs), "proc"))
+                elif form == "internal":
+                    mm["decls"].append(nested_decl(nd("p", "routine", [], refs, [nd("q", "routine", us, refs)]), "proc"))
+                elif form == "host_chain":
+                    # the USE sits in the module procedure: its internal procedure inherits the hiding
+                    mm["decls"].append(nested_decl(nd("p", "routine", us, [], [nd("q", "routine", [], refs)]), "proc"))
+                elif form == "ifbody_mod":
+                    mm["decls"].append(nested_decl(nd("ext", "ifbody", us, body_refs), "iface"))
+                else:
+                    mm["decls"].append(nested_decl(nd("p", "routine", [], refs, [nd("ext", "ifbody", us, body_refs)]), "proc"))
+                out.append((f"shadow:{hname}:{uname}:{form}", [mm, za, zb]))
+    return out
+
+
 def witness_absbody():
     return [nested_module("absint_mod", [use("za")], ("ta",), (), ()), NESTED_ZA]
 
@@ -441,11 +485,14 @@ def run(chk):
     #     module, the used module re-exporting from further modules: every file order
     for label, units in nested_layer():
         R.add(label, units, file_orders(rng, units, "all" if len(units) <= 3 or not quick else 3))
+    # 2b'. a nested USE that hides names of the host scope
+    for label, units in shadow_layer():
+        R.add(label, units, file_orders(rng, units, 1 if quick else 3))
     # 2c. several USE statements of one module in one scope
     for label, units in multi_use_layer():
         R.add(label, units, file_orders(rng, units, 1 if quick else 3))
     # 3. random DAGs (mostly legal, region-free), two file orders each
-    n_random = 280 if quick else 4000
+    n_random = 240 if quick else 4000
     for k in range(n_random):
         knobs = {"regions": rng.random() < 0.25, "p_clash": 0.3 if rng.random() < 0.15 else 0.0,
                  "p_nested": 0.6 if rng.random() < 0.4 else 0.0}
